@@ -223,14 +223,24 @@ func verifyCertificateSignature(
 		return err
 	}
 
+	// The announced algorithm has to be one the certificate's key can produce:
+	// the key type alone must not pick the verification, or a peer could name a
+	// scheme without a digest (Ed25519) for an ECDSA or RSA key and have the
+	// signature checked against an empty hash, which needs no private key.
 	switch pubKey := certificate.PublicKey.(type) {
 	case ed25519.PublicKey:
+		if signatureAlgorithm != signature.Ed25519 {
+			return dtlserrors.ErrInvalidSignatureAlgorithm
+		}
 		if ok := ed25519.Verify(pubKey, message, remoteKeySignature); !ok {
 			return dtlserrors.ErrKeySignatureMismatch
 		}
 
 		return nil
 	case *ecdsa.PublicKey:
+		if signatureAlgorithm != signature.ECDSA || hashAlgorithm.CryptoHash() == 0 {
+			return dtlserrors.ErrInvalidSignatureAlgorithm
+		}
 		ecdsaSig := &ecdsaSignature{}
 		if _, err := asn1.Unmarshal(remoteKeySignature, ecdsaSig); err != nil {
 			return err
@@ -245,6 +255,9 @@ func verifyCertificateSignature(
 
 		return nil
 	case *rsa.PublicKey:
+		if (signatureAlgorithm != signature.RSA && !signatureAlgorithm.IsPSS()) || hashAlgorithm.CryptoHash() == 0 {
+			return dtlserrors.ErrInvalidSignatureAlgorithm
+		}
 		hashed := hashAlgorithm.Digest(message)
 
 		// Use RSA-PSS verification if the signature algorithm is PSS
